@@ -210,15 +210,16 @@ UNSET = type("Unset", (), {"__repr__": lambda self: "<unset>"})()
 class Vec:
     """std::vector / std::array / a materialised range"""
 
-    def __init__(self, items=None, name="vector"):
+    def __init__(self, items=None, name="vector", default=None):
         self.items = list(items or [])
         self.name = name
+        self.default = default        # value-initialised element (callable) for resize(n) / vector(n)
 
     def show(self):
         return "[" + ", ".join(show_val(x) for x in self.items) + "]"
 
     def __deepcopy__(self, memo):
-        return Vec([copy.deepcopy(x, memo) for x in self.items], self.name)
+        return Vec([copy.deepcopy(x, memo) for x in self.items], self.name, self.default)
 
     def idx(self, i):
         i = simp(i)
@@ -275,11 +276,11 @@ class Vec:
 
     def m_resize(self, M, a, t):
         n = self.idx(a[0])
-        fill = a[1] if len(a) > 1 else UNSET
         if n < len(self.items):
             del self.items[n:]
         else:
-            self.items.extend(M.copyval(fill) for _ in range(n - len(self.items)))
+            for _ in range(n - len(self.items)):
+                self.items.append(M.copyval(a[1]) if len(a) > 1 else (self.default() if self.default else UNSET))
 
     def m_assign(self, M, a, t):
         if len(a) == 2 and isinstance(a[0], It) and isinstance(a[1], It):
@@ -635,7 +636,7 @@ class Machine:
         r = env.find(n) if text is None else None
         if r is not None:
             return r
-        short = re.sub(r"<.*$", "", n or "").split("::")[-1]
+        short = short_name(n or "")
         r = env.find(short) if text is None else None
         if r is not None:
             return r
@@ -671,6 +672,8 @@ class Machine:
             v = self.rv(v)
             if hasattr(v, "deref"):
                 return v.deref()
+            if isinstance(v, Obj):
+                return v          # *this
             raise Unab("dereference of %s" % show_val(v))
         if op == "&":
             return v
@@ -755,6 +758,11 @@ class Machine:
         if op in ("+=", "-=", "*=", "/=", "%="):
             r = self.ev(e[2], env)
             cur = self.rv(r)
+            if isinstance(cur, Obj) and ("operator" + op) in self.decls:
+                cands = [d for d in self.decls["operator" + op] if d.qname.split("::")[-2:-1] == [cur.tname] and A.body(d.node) is not None]
+                if len(cands) == 1:
+                    self.run_function(cands[0], [self.ev(e[3], env)], this=cur)
+                    return r
             v = self.eval(e[3], env)
             h = getattr(cur, "iop_" + {"+=": "add", "-=": "sub", "*=": "mul", "/=": "div"}.get(op, "x"), None)
             if h is not None:
@@ -802,7 +810,7 @@ class Machine:
     def int_typed(self, e, env):
         t = e[0]
         if t == "num":
-            return e[1].denominator == 1 and not getattr(e, "is_float", False)
+            return e[1].denominator == 1 and len(e) < 3
         if t == "ref":
             r = env.find(e[1])
             if r is None:
@@ -856,7 +864,13 @@ class Machine:
         if isinstance(base, It) and len(idx) == 1:
             k = simp(idx[0])
             return base.v.at(base.i + int(k))
-        h = getattr(base, "index", None)
+        if isinstance(base, tuple) and base and base[0] == "funcname":
+            # a function object called through operator() (range adaptor objects such as std::views::drop)
+            short = short_name(base[1])
+            if short in self.funcs:
+                return self.apply(self.funcs[short], [Cell(x) for x in idx], None, None, name=base[1])
+            raise Unab("call of the function object %s" % base[1])
+        h = getattr(base, "index", None) if not isinstance(base, (tuple, list, str)) else None
         if h is not None:
             return h(self, idx)
         if isinstance(base, Closure) or isinstance(base, PyFunc):
@@ -874,7 +888,13 @@ class Machine:
         r = env.find(short) if "::" not in full else None
         if r is not None:
             f = self.rv(r)
-            if isinstance(f, (Closure, PyFunc)) or hasattr(f, "index") or isinstance(f, Vec):
+            if getattr(self, "scalar_vectors", False) and (is_num(f) or f is UNSET):
+                # a vector whose dimension is abstracted to one: v(0) is the scalar itself
+                idx = [simp(self.eval(a, env)) for a in args]
+                if all(isinstance(i, Fraction) and i == 0 for i in idx):
+                    return r
+                raise AbstractViolation("coordinate %s of a vector of (abstract) dimension 1" % [show_val(i) for i in idx])
+            if isinstance(f, (Closure, PyFunc)) or (hasattr(f, "index") and not isinstance(f, (tuple, list, str))) or isinstance(f, Vec):
                 if isinstance(f, (Closure, PyFunc)):
                     return self.apply(f, None, args, env)
                 return self.index(f, [self.eval(a, env) for a in args])
@@ -921,6 +941,8 @@ class Machine:
                 if not ks:
                     raise Unab("%s: missing argument %s" % (what, p.get("name")))
                 v = self.ev(TE(ks[-1]), new)
+                if isinstance(self.rv(v), Vec) and self.rv(v).name == "initializer list" and not self.rv(v).items:
+                    v = self.default_value(ty, p.get("name"), new)       # `= {}`
             byref = ty.rstrip().endswith("&") or ty.rstrip().endswith("&&") or "auto &&" in ty
             if byref and (is_ref(v) or isinstance(v, OptValue)):
                 cell = v
@@ -1013,6 +1035,11 @@ class Machine:
         base = self.rv(o)
         if isinstance(o, OptValue) and meth == "get":
             return o.m_get(self, [], targs)
+        if isinstance(base, Obj) and meth in self.decls:
+            cands = [d for d in self.decls[meth] if A.body(d.node) is not None and d.qname.split("::")[-2:-1] == [base.tname]
+                     and len(A.params(d.node)) >= len(args) and sum(1 for p in A.params(d.node) if not A.kids(p)) <= len(args)]
+            if len(cands) == 1:
+                return self.run_function(cands[0], [self.ev(a, env) for a in args], this=base)
         if meth == "operator()" or meth == "operator[]":
             return self.index(base, [self.eval(a, env) for a in args])
         h = getattr(base, "m_" + meth, None)
@@ -1024,7 +1051,7 @@ class Machine:
             return h(self, [self.rv(self.ev(a, env)) if not getattr(h, "refs", False) else self.ev(a, env) for a in args], targs)
         g = self.funcs.get("method:" + meth)
         if g is not None:
-            return g.f(self, base, [self.ev(a, env) for a in args], targs, env)
+            return g.f(self, o, [self.ev(a, env) for a in args], targs, env)
         if isinstance(base, Obj) and meth in self.decls:
             cands = [d for d in self.decls[meth] if A.body(d.node) is not None and d.qname.split("::")[-2:-1] == [base.tname]
                      and len(A.params(d.node)) >= len(args)]
@@ -1035,10 +1062,14 @@ class Machine:
                 return base
             if meth in ("x",):
                 return base
+        if isinstance(base, Obj) and objx == ("this",) and meth in self.funcs:
+            # a dependent qualified call (Tangent<G>::Zero()) is parsed as a possible member of a dependent base
+            return self.apply(self.funcs[meth], None, args, env, name=meth)
         raise Unab("method %s of %s" % (meth, show_val(base)[:60]))
 
     def construct(self, ty, args, env):
         tyn = re.sub(r"\s+", "", ty or "")
+        args = [a for a in args if a != ("default",)]
         if self.type_factory is not None:
             r = self.type_factory(self, tyn, args, env)
             if r is not NotImplemented:
@@ -1055,7 +1086,7 @@ class Machine:
                 n = int(simp(vals[0]))
                 return Vec([self.copyval(vals[1]) if len(vals) == 2 else UNSET for _ in range(n)], "vector")
             raise Unab("vector constructor form (%d arguments)" % len(vals))
-        if is_int_type(tyn) or tyn in ("double", "float", "constdouble", "Scalar", "bool", "constauto", "auto") or tyn.endswith("Scalar"):
+        if is_int_type(tyn) or tyn in ("double", "float", "constdouble", "Scalar", "bool", "constauto", "auto", "S", "T", "_Scalar", "Scalar_", "void") or tyn.endswith("Scalar"):
             if len(args) == 1:
                 v = self.eval(args[0], env)
                 if is_int_type(tyn) and isinstance(simp(v), Fraction):
@@ -1482,6 +1513,12 @@ def _drop(M, r, n):
     raise Unab("drop")
 
 
+def _transform(M, r, f):
+    if isinstance(r, Vec):
+        return Vec([M.copyval(M.apply(f, [ItemRef(r.items, i)], None, None)) for i in range(len(r.items))], r.name + "|transform")
+    raise Unab("transform of %s" % show_val(r))
+
+
 def _make_pair(M, *a):
     return Tup([Cell(M.copyval(x)) for x in a])
 
@@ -1506,6 +1543,7 @@ BUILTINS = {
     "cbegin": _pure(lambda M, v: v.m_begin(M, [], None)), "cend": _pure(lambda M, v: v.m_end(M, [], None)),
     "name:reverse": PyFunc(lambda M, n, env, name=None: RangeAdaptor("reverse", _reverse), lazy=True),
     "take": _pure(lambda M, n: RangeAdaptor("take", lambda M_, r: _take(M_, r, n))),
+    "transform": _pure(lambda M, f: RangeAdaptor("transform", lambda M_, r: _transform(M_, r, f))),
     "drop": _pure(lambda M, n: RangeAdaptor("drop", lambda M_, r: _drop(M_, r, n))),
 }
 
